@@ -633,6 +633,7 @@ class Signature:
         ctx: CheckCallContext,
         typevar_map: Optional[TypeVarMap] = None,
         is_overload: bool = False,
+        is_default: bool = False,
     ) -> tuple[Optional[BoundsMap], bool, Optional[Value]]:
         """Check type compatibility for a single parameter.
 
@@ -650,10 +651,12 @@ class Signature:
             bounds_map, used_any = can_assign_and_used_any(
                 param_typ, composite.value, ctx.can_assign_ctx
             )
-            if composite.value is param.default:
+            # A default that does not match the annotation is reported at the
+            # definition, not at every call that omits the argument.
+            if is_default:
                 used_any = False
             if isinstance(bounds_map, CanAssignError):
-                if composite.value is param.default:
+                if is_default:
                     bounds_map = {}
                 else:
                     if is_overload:
@@ -1265,7 +1268,10 @@ class Signature:
                     continue
                 param = self.parameters[param_name]
                 bounds_map, _, _ = self._check_param_type_compatibility(
-                    param, bound_args[param_name][1], ctx
+                    param,
+                    bound_args[param_name][1],
+                    ctx,
+                    is_default=bound_args[param_name][0] is DEFAULT,
                 )
                 if bounds_map is None:
                     return self.get_default_return()
@@ -1300,6 +1306,7 @@ class Signature:
                     # We can only narrow an argument that has a position of its own
                     # (not one that came from *args or **kwargs).
                     is_overload=is_overload and isinstance(position, (int, str)),
+                    is_default=position is DEFAULT,
                 )
             )
             if tv_map is None:
